@@ -1,11 +1,15 @@
 package main
 
 import (
+	"encoding/base64"
 	"fmt"
 	"math/big"
+	"reflect"
 	"regexp"
 	"sort"
 	"strings"
+
+	ecrypto "github.com/ethereum/go-ethereum/crypto"
 
 	g "github.com/zenon-network/go-zenon/chain/genesis/mock"
 	"github.com/zenon-network/go-zenon/chain/nom"
@@ -16,6 +20,7 @@ import (
 	"github.com/zenon-network/go-zenon/verifier"
 	"github.com/zenon-network/go-zenon/vm/constants"
 	"github.com/zenon-network/go-zenon/vm/embedded/definition"
+	"github.com/zenon-network/go-zenon/vm/embedded/implementation"
 )
 
 // ---------------------------------------------------------------------------------------------------
@@ -68,7 +73,30 @@ func (p kParams) install() {
 	constants.SentinelLockTimeWindow, constants.SentinelRevokeTimeWindow = p.sentinelLock, p.sentinelRevoke
 }
 
-var modelledContracts = []types.Address{types.PlasmaContract, types.StakeContract, types.HtlcContract, types.PillarContract, types.SentinelContract, types.LiquidityContract}
+var modelledContracts = []types.Address{types.PlasmaContract, types.StakeContract, types.HtlcContract, types.PillarContract, types.SentinelContract, types.LiquidityContract, types.BridgeContract}
+
+// the TSS key pair of the bridge in the generated histories (the one of the repository's own bridge tests)
+const (
+	tssPubKey  = "AsAQx1M3LVXCuozDOqO5b9adj/PItYgwZFG/xTDBiZzT"
+	tssPrivKey = "tuSwrTEUyJI1/3y5J8L8DSjzT/AQG2IK3JG+93qhhhI="
+	bridgeNetClass, bridgeChainId = uint32(2), uint32(123)
+)
+
+func ecdsaSign(hash []byte, privateKeyB64 string) string {
+	b, err := base64.StdEncoding.DecodeString(privateKeyB64)
+	if err != nil {
+		return ""
+	}
+	key, err := ecrypto.ToECDSA(b)
+	if err != nil {
+		return ""
+	}
+	sig, err := ecrypto.Sign(hash, key)
+	if err != nil {
+		return ""
+	}
+	return base64.StdEncoding.EncodeToString(sig)
+}
 
 func cname(a types.Address) string { return embeddedNames[a][2:] }
 
@@ -88,6 +116,8 @@ type contractRun struct {
 	sentinels []*definition.SentinelInfo
 	lstakes   []*definition.LiquidityStakeEntry
 	lastTuples string
+	unwraps   []*definition.UnwrapTokenRequest
+	revoked   map[string]bool // bridge: unwrap requests revoked by the administrator (from confirmed receives)
 	burned    bool // the spork address burned ZNN of the liquidity contract while ZNN stakes were open
 	deadIds   []types.Hash // ids of entries that were released (for repeated attempts)
 	preimages map[types.Hash][]byte
@@ -137,6 +167,8 @@ type decoded struct {
 	htlc     *definition.CreateHtlcParam
 	preimage []byte
 	reg      *definition.RegisterParam
+	unwrap   *definition.UnwrapTokenParam
+	logIndex uint32
 }
 
 var pillarNameRe = regexp.MustCompile("^([a-zA-Z0-9]+[-._]?)*[a-zA-Z0-9]$")
@@ -251,6 +283,100 @@ func decodeCall(contract types.Address, data []byte) *decoded {
 	return d
 }
 
+// bridgeOracle: what the bridge methods read from the administrator-managed configuration, evaluated on the storage as of
+// the last momentum (the configuration is not changed while requests are generated): may the bridge act (initialised,
+// not halted), and the token pair found for a token standard / foreign token address.
+func (r *contractRun) bridgeCanAct(ackHeight uint64) bool {
+	st := r.storage(types.BridgeContract)
+	bi, err := definition.GetBridgeInfoVariable(st)
+	if err != nil || len(bi.CompressedTssECDSAPubKey) == 0 || bi.Administrator.IsZero() {
+		return false
+	}
+	si, err := definition.GetSecurityInfoVariable(st)
+	if err != nil || len(si.Guardians) < constants.MinGuardians {
+		return false
+	}
+	if bi.Halted || bi.UnhaltedAt+bi.UnhaltDurationInMomentums >= ackHeight {
+		return false
+	}
+	oi, err := definition.GetOrchestratorInfoVariable(st)
+	if err != nil || oi.WindowSize == 0 || oi.KeyGenThreshold == 0 || oi.ConfirmationsToFinality == 0 || oi.EstimatedMomentumTime == 0 {
+		return false
+	}
+	return true
+}
+
+func (r *contractRun) bridgePair(networkClass, chainId uint32, match func(tp *definition.TokenPair) bool) *definition.TokenPair {
+	ni, err := definition.GetNetworkInfoVariable(r.storage(types.BridgeContract), networkClass, chainId)
+	if err != nil || ni == nil || len(ni.Name) == 0 {
+		return nil
+	}
+	for i := range ni.TokenPairs {
+		if match(&ni.TokenPairs[i]) {
+			return &ni.TokenPairs[i]
+		}
+	}
+	return nil
+}
+
+func pairArgs(tp *definition.TokenPair) []string {
+	if tp == nil {
+		return []string{"none"}
+	}
+	return []string{tokName(tp.TokenStandard), fmt.Sprint(tp.Redeemable), fmt.Sprint(tp.Owned), fmt.Sprint(tp.RedeemDelay)}
+}
+
+func unwrapKey(tx types.Hash, logIndex uint32) string { return fmt.Sprintf("%s/%d", h8z(tx), logIndex) }
+
+// decodeBridge completes the decoded call of a bridge method with the oracle values its model takes as inputs
+func (r *contractRun) decodeBridge(d *decoded, send *nom.AccountBlock, ackHeight uint64) {
+	abi := definition.ABIBridge
+	switch d.method {
+	case definition.UnwrapTokenMethodName:
+		p := new(definition.UnwrapTokenParam)
+		if abi.UnpackMethod(p, d.method, send.Data) != nil {
+			return
+		}
+		d.unwrap, d.id, d.logIndex = p, p.TransactionHash, p.LogIndex
+		sigOk := false
+		if msg, err := implementation.GetUnwrapTokenRequestMessage(p); err == nil {
+			if bi, err := definition.GetBridgeInfoVariable(r.storage(types.BridgeContract)); err == nil {
+				ok, err := implementation.CheckECDSASignature(msg, bi.DecompressedTssECDSAPubKey, p.Signature)
+				sigOk = ok && err == nil
+			}
+		}
+		ta := strings.ToLower(p.TokenAddress)
+		tp := r.bridgePair(p.NetworkClass, p.ChainId, func(t *definition.TokenPair) bool { return ta == t.TokenStandard.String() || ta == t.TokenAddress })
+		d.args = append([]string{h8z(p.TransactionHash), fmt.Sprint(p.LogIndex), addrName(p.ToAddress), ta, amt(p.Amount), fmt.Sprint(r.bridgeCanAct(ackHeight)), fmt.Sprint(sigOk)}, pairArgs(tp)...)
+		d.modelled = true
+	case definition.RedeemUnwrapMethodName:
+		p := new(definition.RedeemParam)
+		if abi.UnpackMethod(p, d.method, send.Data) != nil {
+			return
+		}
+		d.id, d.logIndex = p.TransactionHash, p.LogIndex
+		var tp *definition.TokenPair
+		if req, err := definition.GetUnwrapTokenRequestByTxHashAndLog(r.storage(types.BridgeContract), p.TransactionHash, p.LogIndex); err == nil && req != nil {
+			tp = r.bridgePair(req.NetworkClass, req.ChainId, func(t *definition.TokenPair) bool {
+				return reflect.DeepEqual(req.TokenStandard.Bytes(), t.TokenStandard.Bytes()) || req.TokenAddress == t.TokenAddress
+			})
+		}
+		d.args = append([]string{h8z(p.TransactionHash), fmt.Sprint(p.LogIndex), fmt.Sprint(r.bridgeCanAct(ackHeight))}, pairArgs(tp)...)
+		d.modelled = true
+	case definition.RevokeUnwrapRequestMethodName:
+		p := new(definition.RevokeUnwrapParam)
+		if abi.UnpackMethod(p, d.method, send.Data) != nil {
+			return
+		}
+		d.id, d.logIndex = p.TransactionHash, p.LogIndex
+		isAdmin := false
+		if bi, err := definition.GetBridgeInfoVariable(r.storage(types.BridgeContract)); err == nil {
+			isAdmin = send.Address.String() == bi.Administrator.String()
+		}
+		d.args, d.modelled = []string{h8z(p.TransactionHash), fmt.Sprint(p.LogIndex), fmt.Sprint(isAdmin)}, true
+	}
+}
+
 // h8z prints a hash as 8 bytes of hex, the zero hash included (ids are keys here, never "absent")
 func h8z(h types.Hash) string { return hx(h[:8]) }
 
@@ -309,6 +435,9 @@ func (r *contractRun) onMomentum(dm *nom.DetailedMomentum) {
 		}
 		r.tokens[send.TokenStandard] = true
 		d := decodeCall(b.Address, send.Data)
+		if b.Address == types.BridgeContract {
+			r.decodeBridge(d, send, ack.Height)
+		}
 		outcome := fmt.Sprintf("%s %d%s", status, len(b.DescendantBlocks), sb.String())
 		head := fmt.Sprintf("%s %s %s %s %s %s %d %d", cname(b.Address), d.method, addrName(send.Address), tokName(send.TokenStandard), amt(send.Amount), h8z(send.Hash),
 			ack.Height, ack.Timestamp.Unix())
@@ -583,6 +712,95 @@ func (r *contractRun) monitorReceive(b, send *nom.AccountBlock, d *decoded, stat
 				r.proxy[send.Address] = true
 			}
 		}
+	case types.BridgeContract:
+		key := lockKey(b.Address, "unwrap", unwrapKey(d.id, d.logIndex))
+		lk := r.locks[key]
+		switch d.method {
+		case definition.UnwrapTokenMethodName:
+			if ok && d.unwrap != nil {
+				p := d.unwrap
+				if lk != nil {
+					r.fail("release: unwrap request %s registered twice", key)
+				}
+				msg, err := implementation.GetUnwrapTokenRequestMessage(p)
+				bi, _ := definition.GetBridgeInfoVariable(r.storage(types.BridgeContract))
+				if sig, err2 := implementation.CheckECDSASignature(msg, bi.DecompressedTssECDSAPubKey, p.Signature); err != nil || err2 != nil || !sig {
+					r.fail("release: unwrap request %s was registered although its signature is not the TSS key's signature of the request", key)
+				}
+				ta := strings.ToLower(p.TokenAddress)
+				tp := r.bridgePair(p.NetworkClass, p.ChainId, func(t *definition.TokenPair) bool { return ta == t.TokenStandard.String() || ta == t.TokenAddress })
+				if tp == nil {
+					r.fail("release: unwrap request %s registered for a token address without a configured pair", key)
+					break
+				}
+				r.locks[key] = &lockRec{contract: b.Address, kind: "unwrap", key: key, entitled: p.ToAddress, tok: tp.TokenStandard, amount: new(big.Int).Set(p.Amount), matureH: ack.Height}
+			}
+		case definition.RevokeUnwrapRequestMethodName:
+			if ok {
+				r.revoked[key] = true
+			}
+		case definition.RedeemUnwrapMethodName:
+			var tp *definition.TokenPair
+			if req, err := definition.GetUnwrapTokenRequestByTxHashAndLog(r.storage(types.BridgeContract), d.id, d.logIndex); err == nil && req != nil {
+				tp = r.bridgePair(req.NetworkClass, req.ChainId, func(t *definition.TokenPair) bool {
+					return reflect.DeepEqual(req.TokenStandard.Bytes(), t.TokenStandard.Bytes()) || req.TokenAddress == t.TokenAddress
+				})
+			}
+			if ok {
+				if lk == nil {
+					r.fail("release: Redeem of %s paid out but no such unwrap request was ever registered", key)
+					break
+				}
+				if lk.paidAt != 0 {
+					r.fail("release: Redeem paid twice: unwrap request %s was redeemed at momentum %d and again at %d", key, lk.paidAt, h)
+					break
+				}
+				if r.revoked[key] {
+					r.fail("release: Redeem of %s succeeded although the administrator revoked the request", key)
+				}
+				if tp == nil || len(b.DescendantBlocks) != 1 {
+					r.fail("release: Redeem of %s: no configured token pair or %d descendants", key, len(b.DescendantBlocks))
+					break
+				}
+				if ack.Height-lk.matureH < uint64(tp.RedeemDelay) {
+					r.fail("release: Redeem of %s succeeded at frontier height %d, registered at %d with a redeem delay of %d momentums", key, ack.Height, lk.matureH, tp.RedeemDelay)
+				}
+				dd := b.DescendantBlocks[0]
+				if tp.Owned {
+					want := fmt.Sprintf("mint:%s:%s:%s", tokName(tp.TokenStandard), amt(lk.amount), addrName(lk.entitled))
+					if dd.ToAddress != types.TokenContract || dd.Amount.Sign() != 0 || tokCallString(dd.Data) != want {
+						r.fail("release: Redeem of %s (bridge-owned token) must mint %s, got %s %s", key, want, descString(b), tokCallString(dd.Data))
+					}
+				} else if dd.ToAddress != lk.entitled || dd.TokenStandard != tp.TokenStandard || dd.Amount.Cmp(lk.amount) != 0 {
+					r.fail("release: Redeem of %s paid %s, the signed request names %s %s for %s", key, descString(b), amt(lk.amount), tokName(tp.TokenStandard), addrName(lk.entitled))
+				}
+				lk.paidAt = h
+				if send.Address != lk.entitled {
+					r.c.Hit("bridge-redeem-called-by-third-party")
+				}
+			} else {
+				switch {
+				case send.Amount.Sign() != 0:
+					r.c.Hit("refusal-bridge.Redeem-carries-amount")
+				case lk == nil:
+					r.c.Hit("refusal-bridge.Redeem-unknown-request")
+				case lk.paidAt != 0:
+					r.c.Hit("refusal-bridge.Redeem-already-redeemed")
+				case r.revoked[key]:
+					r.c.Hit("refusal-bridge.Redeem-revoked")
+				case tp == nil:
+					r.c.Hit("refusal-bridge.Redeem-no-pair")
+				case ack.Height-lk.matureH < uint64(tp.RedeemDelay):
+					r.c.Hit("refusal-bridge.Redeem-before-delay")
+				case !tp.Owned && balanceAt(r.n, types.BridgeContract, tp.TokenStandard).Cmp(lk.amount) < 0:
+					r.c.Hit("refusal-bridge.Redeem-bridge-balance-too-low")
+				case types.IsEmbeddedAddress(lk.entitled):
+					r.c.Hit("refusal-bridge.Redeem-recipient-is-a-contract")
+				default:
+					r.fail("liveness: Redeem of %s after its delay (frontier height %d, registered %d, delay %d) was refused", key, ack.Height, lk.matureH, tp.RedeemDelay)
+				}
+			}
+		}
 	case types.LiquidityContract:
 		switch d.method {
 		case definition.LiquidityStakeMethodName:
@@ -747,6 +965,14 @@ func (r *contractRun) monitorReceive(b, send *nom.AccountBlock, d *decoded, stat
 			}
 		}
 	}
+}
+
+func balanceAt(n *Node, a types.Address, t types.ZenonTokenStandard) *big.Int {
+	b, _ := n.Chain().GetFrontierMomentumStore().GetAccountStore(a).GetBalance(t)
+	if b == nil {
+		return new(big.Int)
+	}
+	return b
 }
 
 func descString(b *nom.AccountBlock) string {
@@ -1084,6 +1310,48 @@ func (r *contractRun) compareState(h uint64) {
 		c.Emit("K-digest liquidity | %d %s", len(ll), amt(total))
 	}
 
+	// ---- bridge: unwrap requests (no liability sum: redeems of foreign-owned tokens are paid from what was wrapped) ----
+	{
+		ul, err := definition.GetUnwrapTokenRequests(r.storage(types.BridgeContract))
+		if err != nil {
+			r.fail("GetUnwrapTokenRequests: %v", err)
+		}
+		sort.Slice(ul, func(i, j int) bool {
+			if ul[i].TransactionHash != ul[j].TransactionHash {
+				return string(ul[i].TransactionHash[:]) < string(ul[j].TransactionHash[:])
+			}
+			return ul[i].LogIndex < ul[j].LogIndex
+		})
+		r.unwraps = ul
+		nred := 0
+		for _, e := range ul {
+			if full(types.BridgeContract) {
+				c.Emit("K-unwrap %s %d | %d %s %s %s %s %d %d", h8z(e.TransactionHash), e.LogIndex, e.RegistrationMomentumHeight, addrName(e.ToAddress), e.TokenAddress, tokName(e.TokenStandard), amt(e.Amount), e.Redeemed, e.Revoked)
+			}
+			r.tokens[e.TokenStandard] = true
+			key := lockKey(types.BridgeContract, "unwrap", unwrapKey(e.TransactionHash, e.LogIndex))
+			seenLock[key] = true
+			lk := r.locks[key]
+			if lk == nil {
+				r.fail("storage: unwrap request %s exists in storage but no UnwrapToken call was ever confirmed for it", key)
+				continue
+			}
+			if (lk.paidAt != 0) != (e.Redeemed != 0) {
+				r.fail("release: unwrap request %s: paid at momentum %d, recorded redeemed flag %d (a paid request that is not flagged can be paid again)", key, lk.paidAt, e.Redeemed)
+			}
+			if e.Amount.Cmp(lk.amount) != 0 || e.ToAddress != lk.entitled {
+				r.fail("storage: unwrap request %s records %s for %s, the signed call named %s for %s", key, amt(e.Amount), addrName(e.ToAddress), amt(lk.amount), addrName(lk.entitled))
+			}
+			if r.revoked[key] != (e.Revoked != 0) {
+				r.fail("storage: unwrap request %s: revoked flag %d, confirmed revocations say %v", key, e.Revoked, r.revoked[key])
+			}
+			if e.Redeemed != 0 {
+				nred++
+			}
+		}
+		c.Emit("K-digest bridge | %d %d", len(ul), nred)
+	}
+
 	// a logged deposit must be recorded
 	qk := make([]string, 0, len(r.qsrLog))
 	for k := range r.qsrLog {
@@ -1164,11 +1432,11 @@ var foreignAddrs = []types.Address{
 func contractHistory(c *Ctx, id int) {
 	origGate := verifier.ReceiverMismatchEnforcementHeight
 	origParams := readParams()
-	origAdmin, origMinG, origAdminDelay, origSoftDelay := constants.InitialBridgeAdministrator, constants.MinGuardians, constants.MinAdministratorDelay, constants.MinSoftDelay
+	origAdmin, origMinG, origAdminDelay, origSoftDelay, origUnhalt := constants.InitialBridgeAdministrator, constants.MinGuardians, constants.MinAdministratorDelay, constants.MinSoftDelay, constants.MinUnhaltDurationInMomentums
 	defer func() {
 		verifier.ReceiverMismatchEnforcementHeight = origGate
 		origParams.install()
-		constants.InitialBridgeAdministrator, constants.MinGuardians, constants.MinAdministratorDelay, constants.MinSoftDelay = origAdmin, origMinG, origAdminDelay, origSoftDelay
+		constants.InitialBridgeAdministrator, constants.MinGuardians, constants.MinAdministratorDelay, constants.MinSoftDelay, constants.MinUnhaltDurationInMomentums = origAdmin, origMinG, origAdminDelay, origSoftDelay, origUnhalt
 	}()
 	verifier.ReceiverMismatchEnforcementHeight = 0
 	p := origParams
@@ -1188,7 +1456,7 @@ func contractHistory(c *Ctx, id int) {
 
 	n := NewNode()
 	defer n.Stop()
-	r := &contractRun{c: c, n: n, id: id, p: p, locks: map[string]*lockRec{}, qsrLog: map[string]*big.Int{}, preimages: map[types.Hash][]byte{}, proxy: map[types.Address]bool{},
+	r := &contractRun{c: c, n: n, id: id, p: p, locks: map[string]*lockRec{}, qsrLog: map[string]*big.Int{}, preimages: map[types.Hash][]byte{}, proxy: map[types.Address]bool{}, revoked: map[string]bool{},
 		touched: map[types.Address]bool{}, tokens: map[types.ZenonTokenStandard]bool{types.ZnnTokenStandard: true, types.QsrTokenStandard: true}}
 
 	c.Emit("K-reset")
@@ -1357,6 +1625,70 @@ func contractHistory(c *Ctx, id int) {
 			c.Hit("liquidity-setup-failed")
 		} else {
 			c.Hit("history-with-liquidity")
+		}
+	}
+
+	// bridge: orchestrator info, guardians, TSS key, a network and token pairs (ZNN redeemable and foreign-owned, QSR not
+	// redeemable, a token owned by the bridge contract), every administrative change through its time challenge
+	withBridge := withHtlc && !withLiq && (c.Args["bridge"] == "1" || (c.Args["bridge"] == "" && id%2 == 1))
+	var ownedZts types.ZenonTokenStandard
+	tokenAddrs := map[types.ZenonTokenStandard]string{}
+	if withBridge {
+		constants.InitialBridgeAdministrator, constants.MinGuardians, constants.MinAdministratorDelay, constants.MinSoftDelay, constants.MinUnhaltDurationInMomentums = g.User5.Address, 4, 20, 10, 5
+		admin := g.User5.Address
+		adminCall := func(method string, args ...interface{}) bool {
+			return call(admin, types.BridgeContract, types.ZnnTokenStandard, big.NewInt(0), method, definition.ABIBridge.PackMethodPanic(method, args...)) != nil
+		}
+		challenged := func(delay int, method string, args ...interface{}) bool {
+			for k := 0; k < 2; k++ {
+				if !adminCall(method, args...) {
+					return false
+				}
+				if !advance(2 + (1-k)*(delay+2)) {
+					return false
+				}
+			}
+			return true
+		}
+		okSetup := adminCall(definition.SetOrchestratorInfoMethodName, uint64(6), uint32(3), uint32(15), uint32(10)) && advance(2) &&
+			challenged(20, definition.NominateGuardiansMethodName, []types.Address{g.User1.Address, g.User2.Address, g.User3.Address, g.User4.Address, g.User5.Address}) &&
+			challenged(10, definition.ChangeTssECDSAPubKeyMethodName, tssPubKey, "", "") &&
+			adminCall(definition.SetNetworkMethodName, bridgeNetClass, bridgeChainId, "Ethereum", "0x323b5d4c32345ced77393b3530b1eed0f346429d", "{}") && advance(2)
+		if okSetup { // a token owned by the bridge: issued by User1, ownership handed to the bridge contract
+			if call(g.User1.Address, types.TokenContract, types.ZnnTokenStandard, constants.TokenIssueAmount, "IssueToken", definition.ABIToken.PackMethodPanic(definition.IssueMethodName,
+				"bridged", "BRG", "", big.NewInt(0), big.NewInt(1000000*g.Zexp), uint8(8), true, true, false)) != nil && advance(3) {
+				tl, _ := definition.GetTokenInfoList(r.storage(types.TokenContract))
+				for _, ti := range tl {
+					if ti.Owner == g.User1.Address && ti.TokenSymbol == "BRG" {
+						ownedZts = ti.TokenStandard
+					}
+				}
+				if ownedZts != types.ZeroTokenStandard {
+					okSetup = call(g.User1.Address, types.TokenContract, types.ZnnTokenStandard, big.NewInt(0), "UpdateToken", definition.ABIToken.PackMethodPanic(definition.UpdateTokenMethodName,
+						ownedZts, types.BridgeContract, true, true)) != nil && advance(3)
+				}
+			}
+		}
+		redeemDelay := uint32(2 + c.R.Intn(9))
+		tokenAddrs[types.ZnnTokenStandard] = "0x5fbdb2315678afecb367f032d93f642f64180aa3"
+		tokenAddrs[types.QsrTokenStandard] = "0x5aaeb6053f3e94c9b9a09f33669435e7ef1beaed"
+		okSetup = okSetup &&
+			challenged(10, definition.SetTokenPairMethod, bridgeNetClass, bridgeChainId, types.ZnnTokenStandard, tokenAddrs[types.ZnnTokenStandard], true, true, false, big.NewInt(100), uint32(15), redeemDelay, "{}") &&
+			challenged(10, definition.SetTokenPairMethod, bridgeNetClass, bridgeChainId, types.QsrTokenStandard, tokenAddrs[types.QsrTokenStandard], true, false, false, big.NewInt(100), uint32(0), uint32(3), "{}")
+		if okSetup && ownedZts != types.ZeroTokenStandard {
+			tokenAddrs[ownedZts] = "0xfb6916095ca1df60bb79ce92ce3ea74c37c5d359"
+			okSetup = challenged(10, definition.SetTokenPairMethod, bridgeNetClass, bridgeChainId, ownedZts, tokenAddrs[ownedZts], true, true, true, big.NewInt(1), uint32(0), redeemDelay+1, "{}")
+		}
+		ni, _ := definition.GetNetworkInfoVariable(r.storage(types.BridgeContract), bridgeNetClass, bridgeChainId)
+		if !okSetup || r.failed || ni == nil || len(ni.TokenPairs) < 2 || !r.bridgeCanAct(n.Height()+1) {
+			withBridge = false
+			c.Hit("bridge-setup-failed")
+			if r.failed {
+				return
+			}
+		} else {
+			c.Hit("history-with-bridge")
+			c.Hit(fmt.Sprintf("bridge-token-pairs-%d", len(ni.TokenPairs)))
 		}
 	}
 
@@ -1836,6 +2168,88 @@ func contractHistory(c *Ctx, id int) {
 		return true
 	}
 
+	unwrapSeq := 0
+	genBridge := func() {
+		y := c.R.Intn(100)
+		switch {
+		case y < 20: // WrapToken: funds the bridge (foreign-owned tokens stay in its balance, bridge-owned ones are burned)
+			tok := []types.ZenonTokenStandard{types.ZnnTokenStandard, types.ZnnTokenStandard, types.QsrTokenStandard}[c.R.Intn(3)]
+			am := qsr(int64(1 + c.R.Intn(40)))
+			if c.R.Intn(10) == 0 {
+				am = big.NewInt(int64(c.R.Intn(100)))
+			}
+			call(pick(users), types.BridgeContract, tok, am, "WrapToken", definition.ABIBridge.PackMethodPanic(definition.WrapTokenMethodName, bridgeNetClass, bridgeChainId, "0xb794f5ea0ba39494ce839613fffba74279579268"))
+		case y < 55: // UnwrapToken: signed by the TSS key / by another key / altered after signing / duplicate / unknown token / not redeemable
+			toks := []types.ZenonTokenStandard{types.ZnnTokenStandard, types.ZnnTokenStandard, types.QsrTokenStandard}
+			if ownedZts != types.ZeroTokenStandard {
+				toks = append(toks, ownedZts, ownedZts)
+			}
+			tok := toks[c.R.Intn(len(toks))]
+			p := &definition.UnwrapTokenParam{NetworkClass: bridgeNetClass, ChainId: bridgeChainId, LogIndex: uint32(c.R.Intn(3)), ToAddress: pick(anyAddr),
+				TokenAddress: tokenAddrs[tok], Amount: qsr(int64(1 + c.R.Intn(20)))}
+			unwrapSeq++
+			p.TransactionHash = types.NewHash([]byte(fmt.Sprintf("eth-tx-%d-%d", id, unwrapSeq)))
+			variant := c.R.Intn(14)
+			switch variant {
+			case 0:
+				if len(r.unwraps) > 0 { // an already registered (tx, log)
+					e := r.unwraps[c.R.Intn(len(r.unwraps))]
+					p.TransactionHash, p.LogIndex = e.TransactionHash, e.LogIndex
+				}
+			case 1:
+				p.TokenAddress = "0x00000000000000000000000000000000000000aa" // no pair
+			case 2:
+				p.ChainId = 77 // unknown network
+			case 3:
+				p.Amount = qsr(2000000) // more than the bridge holds
+			}
+			msg, err := implementation.GetUnwrapTokenRequestMessage(p)
+			if err != nil {
+				return
+			}
+			key := tssPrivKey
+			if variant == 4 {
+				key = "tuSwrTEUyJI1/3y5J8L8DSjzT/AQG2IK3JG+93qhhhE=" // another key
+			}
+			p.Signature = ecdsaSign(msg, key)
+			switch variant {
+			case 5:
+				p.Amount = new(big.Int).Add(p.Amount, big.NewInt(1)) // altered after signing
+			case 6:
+				p.ToAddress = pick(users) // redirected after signing
+			case 7:
+				p.Signature = ""
+			}
+			am, tk := withAmount()
+			call(pick(users), types.BridgeContract, tk, am, "UnwrapToken", definition.ABIBridge.PackMethodPanic(definition.UnwrapTokenMethodName,
+				p.NetworkClass, p.ChainId, p.TransactionHash, p.LogIndex, p.ToAddress, p.TokenAddress, p.Amount, p.Signature))
+		case y < 92: // Redeem: by anybody, before / after the delay, repeated, revoked, unknown
+			var tx types.Hash
+			var li uint32
+			if len(r.unwraps) > 0 && c.R.Intn(10) != 0 {
+				e := r.unwraps[c.R.Intn(len(r.unwraps))]
+				for k := 0; k < 2 && e.Redeemed != 0; k++ { // prefer open requests, keep some repeated ones
+					e = r.unwraps[c.R.Intn(len(r.unwraps))]
+				}
+				tx, li = e.TransactionHash, e.LogIndex
+			} else {
+				tx, li = randomHash(), uint32(c.R.Intn(3))
+			}
+			am, tk := withAmount()
+			call(pick(users), types.BridgeContract, tk, am, "Redeem", definition.ABIBridge.PackMethodPanic(definition.RedeemUnwrapMethodName, tx, li))
+		default: // RevokeUnwrapRequest: administrator / somebody else
+			if len(r.unwraps) == 0 {
+				return
+			}
+			e := r.unwraps[c.R.Intn(len(r.unwraps))]
+			from := g.User5.Address
+			if c.R.Intn(3) == 0 {
+				from = pick(users)
+			}
+			call(from, types.BridgeContract, types.ZnnTokenStandard, zero, "RevokeUnwrapRequest", definition.ABIBridge.PackMethodPanic(definition.RevokeUnwrapRequestMethodName, e.TransactionHash, e.LogIndex))
+		}
+	}
+
 	genLiquidity := func() {
 		if c.R.Intn(100) < 45 {
 			from := pick(users)
@@ -1891,6 +2305,10 @@ func contractHistory(c *Ctx, id int) {
 				continue
 			}
 			switch l.kind {
+			case "unwrap":
+				if !r.revoked[l.key] {
+					open = append(open, l)
+				}
 			case "pillar", "sentinel-znn":
 				if l.key != lockKey(types.PillarContract, "pillar", g.Pillar1Name) && l.key != lockKey(types.PillarContract, "pillar", g.Pillar2Name) {
 					open = append(open, l)
@@ -1912,6 +2330,15 @@ func contractHistory(c *Ctx, id int) {
 		switch l.kind {
 		case "fusion":
 			need = int64(l.matureH) + delta - 1 - int64(n.Height())
+		case "unwrap":
+			tp := r.bridgePair(bridgeNetClass, bridgeChainId, func(t *definition.TokenPair) bool { return t.TokenStandard == l.tok })
+			if tp == nil {
+				return true
+			}
+			need = int64(l.matureH) + int64(tp.RedeemDelay) + delta - 1 - int64(n.Height())
+			if need < 0 {
+				need = 0
+			}
 		case "pillar", "sentinel-znn":
 			// the next opening or closing of the revoke window
 			lock, rev := r.p.pillarLock, r.p.pillarRevoke
@@ -1954,6 +2381,13 @@ func contractHistory(c *Ctx, id int) {
 				if h8z(f.Id) == last && f.StakeAddress == l.entitled {
 					call(l.entitled, types.StakeContract, types.ZnnTokenStandard, zero, "Cancel", definition.ABIStake.PackMethodPanic(definition.CancelStakeMethodName, f.Id))
 					c.Hit(fmt.Sprintf("edge-stake-delta%+d", delta))
+				}
+			}
+		case "unwrap":
+			for _, e := range r.unwraps {
+				if lockKey(types.BridgeContract, "unwrap", unwrapKey(e.TransactionHash, e.LogIndex)) == l.key {
+					call(pick(users), types.BridgeContract, types.ZnnTokenStandard, zero, "Redeem", definition.ABIBridge.PackMethodPanic(definition.RedeemUnwrapMethodName, e.TransactionHash, e.LogIndex))
+					c.Hit(fmt.Sprintf("edge-unwrap-delay-delta%+d", delta))
 				}
 			}
 		case "lstake":
@@ -2001,12 +2435,16 @@ func contractHistory(c *Ctx, id int) {
 		case x < 14:
 			if withLiq && c.R.Intn(2) == 0 {
 				genLiquidity()
+			} else if withBridge && c.R.Intn(2) == 0 {
+				genBridge()
 			} else {
 				genPlasma()
 			}
 		case x < 28:
 			if withLiq && c.R.Intn(2) == 0 {
 				genLiquidity()
+			} else if withBridge && c.R.Intn(2) == 0 {
+				genBridge()
 			} else {
 				genStake()
 			}
